@@ -39,6 +39,8 @@ class Check:
         self.explanation = ""
         self.min_counts = {}    # rule -> (found, required)
         self._seen = set()
+        self.rule_prefix = ""       # set by a check that re-uses another property's rule functions
+        self.rule_filter = None     # callable(rule) -> bool
 
     # ---- recording --------------------------------------------------------
     def rule(self, rid, text):
@@ -55,6 +57,9 @@ class Check:
 
     def ob(self, rule, instance, ok, detail="", loc="", fn=""):
         """Record one obligation. ok: True (discharged) / False (refuted)."""
+        if self.rule_filter is not None and not self.rule_filter(rule):
+            return ok
+        rule = self.rule_prefix + rule
         key = (rule, instance, bool(ok), loc)
         if key in self._seen:
             return ok
@@ -65,10 +70,15 @@ class Check:
 
     def unknown(self, rule, instance, why, loc=""):
         """The rule cannot decide this instance (unrecognised idiom, top)."""
+        if self.rule_filter is not None and not self.rule_filter(rule):
+            return
+        rule = self.rule_prefix + rule
         self.inconclusive.append({"rule": rule, "instance": instance, "why": why, "loc": loc})
 
     def expect(self, rule, what, found, required):
         """Non-vacuity: fewer instances than confirmed by hand is analysis-broken."""
+        if self.rule_filter is not None and not self.rule_filter(rule):
+            return
         self.min_counts["%s:%s" % (rule, what)] = (found, required)
         if found < required:
             self.unknown(rule, what, "rule matched %d instances, %d were confirmed by reading the code; "
